@@ -81,7 +81,7 @@ def proc_cases(rng, n):
     return out
 
 
-def proc_sample(chk, prop, n):
+def proc_sample(chk, prop, n, cases=None):
     """E4: run n cases with real worker processes (own session, group killed), compare every outcome
     with the harness reference and with `outs` of the Lean model; C04: the traceback of the failure
     site must survive as text"""
@@ -90,7 +90,7 @@ def proc_sample(chk, prop, n):
     import signal
     import subprocess
     import time
-    cases = proc_cases(chk.rng, n)
+    cases = cases if cases is not None else proc_cases(chk.rng, n)
     env = dict(os.environ, PYTHONPATH=f'{core.HARNESS}:{core.REPO / "src"}')
     lines = []
     done = []
@@ -241,6 +241,15 @@ ASSUMPTIONS = [
 
 def replay(chk, data, prop=PROP):
     import json
+    if 'chooser' not in data['case']:
+        # a case of the real-process sample (OS schedule: the replay re-runs it, it does not reproduce a schedule)
+        proc_sample(chk, prop, 0, cases=[data['case']])
+        for v in chk.violations:
+            print(json.dumps(dict(rule=v['rule'], detail=v['detail']))[:1500])
+        if chk.violations or chk.corr_breaks:
+            print(f'VIOLATION property={prop} replay=(replayed)')
+            return 1
+        return 0
     res = chk.run_cases('scen_servlet', [data['case']])
     case, r = res[0]
     hits = [m for m in r['monitors'] if m['prop'] == prop]
